@@ -228,7 +228,33 @@ def run_case(case):
                 ctx = zoo.sample_context(me, B, seed + 2)
                 if direction == "inverse":
                     if "umnn" in me["tags"]:
-                        break               # bisection inverse: piecewise constant for autograd, declared approximation
+                        # The UMNN inverse is a 25-step bisection that records no graph: finite differences of its (quantised)
+                        # value decide nothing, but differentiability itself is observable - the transformed outputs of
+                        # inverse(y) must depend on y for autograd.  Finding probe (open finding F-UMNN-INVERSE-GRAD).
+                        try:
+                            with torch.no_grad():
+                                yq = copy.deepcopy(model).eval()(x, ctx)[0]
+                            yq = yq.detach().clone().requires_grad_(True)
+                            xo, lo = model.inverse(yq, ctx)
+                            r.ev()
+                            r.count("umnn_inverse_probes")
+                            gy = torch.autograd.grad((xo.sum() + lo.sum()), yq, allow_unused=True)[0] if (
+                                xo.requires_grad or lo.requires_grad) else None
+                            tmask = torch.zeros(xo.shape[1], dtype=torch.bool)
+                            if "mask" in cfg:
+                                tmask[[i for i, mv in enumerate(cfg["mask"]) if mv > 0]] = True
+                            else:
+                                tmask[:] = True
+                            dead = gy is None or bool((gy[:, tmask] == 0).all())
+                            if dead:
+                                r.viol("no_gradient", "UMNN inverse: the transformed outputs carry no gradient with respect to the inputs "
+                                       "(bisection without a graph)", probe="umnn_inverse_grad", subject=label, mode=mode,
+                                       outputs_require_grad=bool(xo.requires_grad), cfg=cfg)
+                            else:
+                                r.cell(label, "inverse", mode, "umnn_inverse_differentiable")
+                        except Exception as e:
+                            r.count("umnn_inverse_probe_raised")
+                        break
                     try:
                         with torch.no_grad():
                             x = copy.deepcopy(model).eval()(x, ctx)[0]
